@@ -198,4 +198,4 @@ KNOWN_PREDICATES = {}
 
 # coverage-guided second driver (atheris / libFuzzer through Hypothesis' fuzz_one_input) for the core clauses: (clause, quick runs, thorough runs)
 from harness.covfuzz import cov_clauses  # noqa: E402
-CLAUSES += cov_clauses('C20', CLAUSES, [('isomorphic', 2000, 40000), ('isomorphic1', 2000, 40000)])
+CLAUSES += cov_clauses('C20', CLAUSES, [('isomorphic', 2000, 13333), ('isomorphic1', 2000, 13333)])
